@@ -5,8 +5,8 @@ ENTRY = dict(
         title="Cutting gates and reconstructing reproduces the uncut expectation values",
         prop_file="Properties/C01.v",
         corr_files=["Corr/C01Corr.v"],
-        theorems=["c01_all_maps", "c01_support_sum", "c01_multilinear", "c01_c05_vocabulary", "c01_roundtrip", "c01_roundtrip_generated", "c01_expansion",
-                  "c01_listed_samples", "c01_roundtrip_public", "c01_unseparated", "c01_identity_projection", "c01_subcutoff",
+        theorems=["c01_all_maps", "c01_support_sum", "c01_multilinear", "c01_c05_vocabulary", "c01_roundtrip_partial", "c01_roundtrip_generated_partial", "c01_expansion",
+                  "c01_listed_samples", "c01_roundtrip_public_partial", "c01_unseparated_partial", "c01_identity_projection", "c01_subcutoff",
                   "c01_weights_from_c04", "c01_idle_refusal", "c01_idle_rule", "c01_checker_sound", "c01_hyps_satisfiable", "c01_ex_roundtrip",
                   "c01_facts"],
         allowed_axioms=[],
@@ -41,7 +41,7 @@ ENTRY = dict(
                    "above the cut-off, coefficient = product within 1e-12*kappa, #circuits = #samples x #groups, projections "
                    "consistent, lookup shapes), the refusal rule is evaluated by the C10 model, and the returned numbers are compared "
                    "(1e-7) with an independent state-vector simulation of the uncut circuit.",
-        level_note=STD_NOTE + "No axioms. P1-P3 are HYPOTHESES of c01_roundtrip / c01_unseparated / c01_subcutoff (n-qubit Hilbert-space "
+        level_note=STD_NOTE + "No axioms. P1-P3 are HYPOTHESES of c01_roundtrip_partial / c01_unseparated_partial / c01_subcutoff (n-qubit Hilbert-space "
                    "semantics is not formalised): what is proved is the algebra connecting the modelled bookkeeping to the uncut value "
                    "given those postulates; that the real subexperiments satisfy them is tested numerically on every run, not proved. "
                    "The numeric comparison is made by the harness and enters the Coq case as one boolean; the property-level oracle "
